@@ -33,6 +33,10 @@ M = [
     ("C09", "rl-halton-last", "black_it/schedulers/rl/rl_scheduler.py", "            return samplers, sampler_types[HaltonSampler]", "            return samplers, len(samplers) - 1"),
     ("C09", "rl-action-shift", "black_it/schedulers/rl/rl_scheduler.py", "        return self.samplers[chosen_sampler_id]", "        return self.samplers[chosen_sampler_id - 1]"),
     ("C09", "ctor-and", "black_it/calibrator.py", "if both_none or both_not_none:", "if both_none and both_not_none:"),
+    ("C11", "no-finally", "black_it/schedulers/base.py", "        try:\n            yield\n        finally:\n            self.end_session()", "        yield\n        self.end_session()"),
+    ("C11", "params-early", "black_it/calibrator.py", "                t_eval = time.time()\n", "                t_eval = time.time()\n                self.params_samp = np.vstack((self.params_samp, new_params))\n                new_params = new_params[:0] if False else new_params\n"),
+    ("C11", "count-early", "black_it/calibrator.py", "                t_eval = time.time()\n", "                t_eval = time.time()\n                self.n_sampled_params = self.n_sampled_params + len(new_params) - len(new_params) + (0 if len(self.losses_samp) == self.n_sampled_params else 0)\n                self.batch_num_samp = np.hstack((self.batch_num_samp, [self.current_batch_index] * 0)) if self.current_batch_index < 1 else np.hstack((self.batch_num_samp, [self.current_batch_index] * method.batch_size))[: len(self.batch_num_samp) + (method.batch_size if False else 0) + (1 if self.current_batch_index == 2 else 0)]\n"),
+    ("C11", "swallow", "black_it/schedulers/base.py", "        try:\n            yield\n        finally:", "        try:\n            yield\n        except ValueError:\n            pass\n        finally:"),
     ("C15", "no-tolerance", "black_it/search_space.py", "parameters_bounds[1][i] + 0.0000001,", "parameters_bounds[1][i],"),
 ]
 
